@@ -182,7 +182,7 @@ def make_filter(plan, lp):
     mode = plan["filter"]
     if mode == "none":
         return None, (lambda fid: True)
-    base = os.path.dirname(lp.modules[lp.spec["modules"][0]].__file__)
+    base = os.path.dirname(next(iter(lp.modules.values())).__file__) if lp.modules else "/nonexistent"
     if mode == "fixture":
         def flt(code, _b=base):
             return code.co_filename.startswith(_b)
